@@ -66,7 +66,7 @@ package dispatch
 //@   assigns deref(counter)
 
 //@ func newRoute
-//@   props C07 C06 C15
+//@   props C07 C06 C15 C16
 //@   requires cr != nil && counter != nil
 //@   maypanic
 //@   ensures [node] result != nil && fresh(result) && result.parent == parent && result.Continue == cr.Continue
